@@ -82,14 +82,122 @@ def seqAB : List Bool := List.replicate 30 false ++ List.replicate 30 true
 /-- racy: B enters Node, A runs to completion, B finishes -/
 def racy : List Bool := [true] ++ List.replicate 30 false ++ List.replicate 30 true
 
-#eval (runSched g0 init0 seqAB).cache
-#eval (runSched g0 init0 racy).cache
-#eval ((runSched g0 init0 racy).a.done, (runSched g0 init0 racy).b.done)
 
 theorem seq_ok : ((runSched g0 init0 seqAB).cache.get? 0) = some true := by decide +kernel
 /-- C20 counterexample for the current code: a schedule after which Node is marked non-recursive -/
 theorem race_counterexample :
     (runSched g0 init0 racy).a.done = true ∧ (runSched g0 init0 racy).b.done = true ∧
     (runSched g0 init0 racy).cache.get? 0 = some false := by decide +kernel
-#print axioms race_counterexample
+
+/-! ## the repaired protocol: the whole analysis of one call runs under a lock
+
+`is_recursive` takes a lock around the cache test and the traversal (repair of row 19).  A thread may step only when
+the lock is free or its own; it takes the lock with its first step and releases it when its call is complete. -/
+
+structure LState where
+  cache : Cache
+  a : Local
+  b : Local
+  /-- `some t`: thread `t` (false = A, true = B) holds the lock -/
+  owner : Option Bool := none
+  deriving Repr, DecidableEq
+
+def Local.started (l : Local) : Bool := l.start.isNone
+/-- inside its critical section -/
+def Local.mid (l : Local) : Bool := l.started && !l.done
+
+def stepA (g : Graph) (s : LState) : LState :=
+  if s.a.done then s                                  -- the call has returned
+  else if s.owner == some true then s                 -- blocked on the lock
+  else { s with cache := (step g s.cache s.a).1, a := (step g s.cache s.a).2,
+                owner := if (step g s.cache s.a).2.done then none else some false }
+def stepB (g : Graph) (s : LState) : LState :=
+  if s.b.done then s
+  else if s.owner == some false then s
+  else { s with cache := (step g s.cache s.b).1, b := (step g s.cache s.b).2,
+                owner := if (step g s.cache s.b).2.done then none else some true }
+def stepLocked (g : Graph) (s : LState) (t : Bool) : LState := if t then stepB g s else stepA g s
+
+def runLocked (g : Graph) (s : LState) (sched : List Bool) : LState := sched.foldl (stepLocked g) s
+
+/-- the lock is free only when nobody is inside a critical section, and its holder is the only one inside -/
+def lockInv (s : LState) : Bool :=
+  match s.owner with
+  | none => !s.a.mid && !s.b.mid
+  | some false => !s.b.mid
+  | some true => !s.a.mid
+
+theorem mid_of_done {l : Local} (h : l.done = true) : l.mid = false := by simp [Local.mid, h]
+
+theorem lockInv_stepA (g : Graph) (s : LState) (h : lockInv s = true) : lockInv (stepA g s) = true := by
+  unfold stepA
+  by_cases hd : s.a.done = true
+  · rw [if_pos hd]; exact h
+  · rw [if_neg hd]
+    by_cases hb : (s.owner == some true) = true
+    · rw [if_pos hb]; exact h
+    · rw [if_neg hb]
+      have hbm : s.b.mid = false := by
+        unfold lockInv at h
+        cases ho : s.owner with
+        | none => rw [ho] at h; simp at h; exact h.2
+        | some o => cases o with
+          | false => rw [ho] at h; simpa using h
+          | true => rw [ho] at hb; exact absurd rfl hb
+      by_cases hdone : (step g s.cache s.a).2.done = true
+      · simp [lockInv, hdone, mid_of_done hdone, hbm]
+      · simp [lockInv, hdone, hbm]
+
+theorem lockInv_stepB (g : Graph) (s : LState) (h : lockInv s = true) : lockInv (stepB g s) = true := by
+  unfold stepB
+  by_cases hd : s.b.done = true
+  · rw [if_pos hd]; exact h
+  · rw [if_neg hd]
+    by_cases hb : (s.owner == some false) = true
+    · rw [if_pos hb]; exact h
+    · rw [if_neg hb]
+      have ham : s.a.mid = false := by
+        unfold lockInv at h
+        cases ho : s.owner with
+        | none => rw [ho] at h; simp at h; exact h.1
+        | some o => cases o with
+          | true => rw [ho] at h; simpa using h
+          | false => rw [ho] at hb; exact absurd rfl hb
+      by_cases hdone : (step g s.cache s.b).2.done = true
+      · simp [lockInv, hdone, mid_of_done hdone, ham]
+      · simp [lockInv, hdone, ham]
+
+theorem lockInv_run (g : Graph) : ∀ (sched : List Bool) (s : LState), lockInv s = true → lockInv (runLocked g s sched) = true
+  | [], _, h => h
+  | t :: ts, s, h => by
+    unfold runLocked
+    rw [List.foldl_cons]
+    have : lockInv (stepLocked g s t) = true := by
+      unfold stepLocked; cases t
+      · simpa using lockInv_stepA g s h
+      · simpa using lockInv_stepB g s h
+    exact lockInv_run g ts _ this
+
+/-- **C20 (mutual exclusion of the repaired protocol).** For every type graph, every pair of calls and every
+    schedule — any length, any interleaving — the two traversals are never both inside their critical sections:
+    the shared cache is only ever read and written by one complete analysis at a time. -/
+theorem C20_mutex (g : Graph) (s : LState) (h : lockInv s = true) (sched : List Bool) :
+    ¬ ((runLocked g s sched).a.mid = true ∧ (runLocked g s sched).b.mid = true) := by
+  have hinv := lockInv_run g sched s h
+  intro ⟨ha, hb⟩
+  unfold lockInv at hinv
+  cases ho : (runLocked g s sched).owner with
+  | none => rw [ho] at hinv; simp [ha] at hinv
+  | some o => cases o <;> (rw [ho] at hinv; simp [ha, hb] at hinv)
+
+def linit0 : LState := { cache := [], a := { start := some 1 }, b := { start := some 0 } }
+theorem linit0_inv : lockInv linit0 = true := by decide
+
+/-- the racy schedule of `race_counterexample` under the lock: B's first step takes the lock, A is blocked until B has
+    finished, and `Node` is recursive for both (a finite check on the example graph, by evaluation) -/
+theorem C20_locked_racy_schedule_ok :
+    (runLocked g0 linit0 (racy ++ racy)).a.done = true ∧ (runLocked g0 linit0 (racy ++ racy)).b.done = true ∧
+    (runLocked g0 linit0 (racy ++ racy)).cache.get? 0 = some true ∧ (runLocked g0 linit0 (racy ++ racy)).cache.get? 1 = some true := by
+  decide +kernel
+
 end Api.Rec
